@@ -12,13 +12,17 @@
 //!   d                digest of the current context (full text)
 //!   n                names only: imp (ordered), vars, fns, units, dims (full text, no evaluation)
 //!   s / S            order-insensitive digest: every section sorted (s: hashes, S: full text)
+//!   R<line>          one REPL line: CommandRunner::try_run_command (real `save` etc.), else interpret + push_to_history
+//!   L<path>          content of the file at <path> (what `save` wrote)
 //!   U<module>        can `use <module>` still be imported on a CLONE, and what does it add?
 //! output line: one item per I/F/J/D/d/U field, separated by TAB (escaped the same way)
 //!   I → ok|<value or ->|<type or ->|<prints>      or  err|<stage>:<Kind>|<prints>   or  PANIC
 //!   D → imp=<hash>;vars=<hash>;fns=<hash>;units=<hash>;dims=<hash>;vals=<hash>
 //!   d → imp=[..];vars=[..];fns=[..];units=[..];dims=[..];vals=[name=text, ..]
 //!   U → same as I for `use <module>` followed by the digest (hash form) after it
+use numbat::command::{CommandControlFlow, CommandRunner};
 use numbat::markup::Markup;
+use numbat::session_history::SessionHistory;
 use numbat::module_importer::{BuiltinModuleImporter, ModuleImporter};
 use numbat::resolver::{CodeSource, ModulePath, ResolverError};
 use numbat::{Context, InterpreterResult, InterpreterSettings, NumbatError};
@@ -327,6 +331,7 @@ fn run_case(line: &str) -> String {
     let mut cur = 0usize;
     slots.insert(0, fresh());
     let mut outs: Vec<String> = Vec::new();
+    let mut runner = CommandRunner::<()>::new().enable_save(SessionHistory::default());
     for f in line.split('\t') {
         if f.is_empty() {
             continue;
@@ -372,6 +377,29 @@ fn run_case(line: &str) -> String {
                     catch_unwind(AssertUnwindSafe(|| digest_sorted(ctx, full)))
                         .unwrap_or_else(|_| "PANIC".into()),
                 );
+            }
+            "R" => {
+                // the body of numbat-cli's repl_loop for one line (interactive mode)
+                let text = unesc(rest);
+                if text.trim().is_empty() {
+                    outs.push("blank".into());
+                    continue;
+                }
+                let ctx = slots.get_mut(&cur).unwrap();
+                let r = catch_unwind(AssertUnwindSafe(|| runner.try_run_command(&text, ctx, &mut ())));
+                match r {
+                    Ok(Ok(CommandControlFlow::NotACommand)) => {
+                        let o = interpret(ctx, &text, CodeSource::Text);
+                        runner.push_to_history(&text, if o.starts_with("ok|") { Ok(()) } else { Err(()) });
+                        outs.push(o);
+                    }
+                    Ok(Ok(_)) => outs.push("cmd".into()),
+                    Ok(Err(_)) => outs.push("cmderr".into()),
+                    Err(_) => outs.push("PANIC".into()),
+                }
+            }
+            "L" => {
+                outs.push(std::fs::read_to_string(unesc(rest)).unwrap_or_else(|e| format!("@@IOERR {e}")));
             }
             "U" => {
                 let mut c2 = slots.get(&cur).unwrap().clone();
